@@ -6,6 +6,7 @@ flat-maps with optional early exit; calls to functions with a contract use the c
 """
 import ast
 import itertools
+import os
 
 import z3
 
@@ -84,7 +85,7 @@ class Ctx:
         r = self.feas_cache.get(key)
         if r is None:
             self.feas_calls += 1
-            res = smt.check_sat(pc, timeout_ms=self.config.get("feas_timeout_ms", 400), use_cvc5=False)
+            res = smt.check_sat(pc, timeout_ms=self.config.get("feas_timeout_ms", int(os.environ.get("PYVC_FEAS_MS", "150"))), use_cvc5=False)
             r = res.status != "unsat"
             self.feas_cache[key] = r
         return r
